@@ -22,6 +22,7 @@ func cmdSweep(args []string) int {
 	pkgSub := fs.String("pkg", "", "only packages whose path contains this")
 	fnSub := fs.String("func", "", "only functions whose name contains this")
 	timeout := fs.Int("timeout", 10, "solver seconds per obligation")
+	emit := fs.Bool("emit", false, "print a C19 contract block for every function all of whose safety obligations are discharged under the synthetic precondition")
 	fs.Parse(args)
 	prog, err := loadProgram(*repo, repoPkgPatterns, nil)
 	if err != nil {
@@ -57,6 +58,7 @@ func cmdSweep(args []string) int {
 	}
 	sort.Strings(keys)
 	var results []*FuncResult
+	reqOf := map[string]string{}
 	skipped := 0
 	for _, k := range keys {
 		fi := prog.funcs[k]
@@ -75,6 +77,7 @@ func cmdSweep(args []string) int {
 		for i := 0; i < sig.Params().Len(); i++ {
 			addNN(sig.Params().At(i))
 		}
+		reqOf[k] = strings.Join(reqs, " && ")
 		b := &rawBlock{key: k, where: "sweep"}
 		b.clauses = append(b.clauses, &rawClause{kind: "props", text: "SWEEP", where: "sweep"})
 		if len(reqs) > 0 {
@@ -119,8 +122,58 @@ func cmdSweep(args []string) int {
 	}
 	dir, _ := os.MkdirTemp("", "govc-sweep-")
 	defer os.RemoveAll(dir)
-	fastOnly = true
+	fastOnly = !*emit
 	solveAll(results, dir, *timeout, runtime.NumCPU(), false, map[string]bool{})
+	if *emit {
+		byPkg := map[string][]string{}
+		for _, r := range results {
+			if len(r.obligs) == 0 || r.fc == nil || r.fc.decl == nil {
+				continue
+			}
+			file := prog.fset.Position(r.fc.decl.Pos()).Filename
+			if strings.HasSuffix(file, ".pb.go") || strings.HasSuffix(file, ".pb.gw.go") {
+				continue
+			}
+			ok := true
+			for _, ob := range r.obligs {
+				if ob.status != "unsat" {
+					ok = false
+				}
+			}
+			if !ok {
+				continue
+			}
+			// contract key relative to the package: Name, (*T).Name, T.Name
+			key := r.fc.fn.Name()
+			if sig := r.fc.fn.Type().(*types.Signature); sig.Recv() != nil {
+				rt := sig.Recv().Type()
+				if pt, isPtr := rt.(*types.Pointer); isPtr {
+					if nt, ok := pt.Elem().(*types.Named); ok {
+						key = "(*" + nt.Obj().Name() + ")." + key
+					}
+				} else if nt, ok := rt.(*types.Named); ok {
+					key = nt.Obj().Name() + "." + key
+				}
+			}
+			blk := "//@ func " + key + "\n//@   props C19\n"
+			if reqOf[r.key] != "" {
+				blk += "//@   requires " + reqOf[r.key] + "\n"
+			}
+			blk += "//@   modifies *\n//@   standalone\n"
+			byPkg[r.fc.pkg.PkgPath] = append(byPkg[r.fc.pkg.PkgPath], fmt.Sprintf("// %d safety obligations (%s)\n%s", len(r.obligs), relRepo(file), blk))
+		}
+		var pk []string
+		for k := range byPkg {
+			pk = append(pk, k)
+		}
+		sort.Strings(pk)
+		for _, k := range pk {
+			fmt.Printf("### %s\n", k)
+			for _, b := range byPkg[k] {
+				fmt.Println(b)
+			}
+		}
+	}
 	n, nsat := 0, 0
 	for _, r := range results {
 		for _, ob := range r.obligs {
